@@ -65,7 +65,8 @@ def define(g, name, crate, file, module, harness_file, properties, entries, para
             for k, v in ps.items():
                 fn = fn.replace("@" + k + "@", str(v))
             out.append({"name": module + "::" + fn, "obligation": ob, "functions": fns, "mode": mode,
-                        "bound": bound(ps) if callable(bound) else bound, "covers": (covers or 0) + 1, "timeout": 1200})
+                        "bound": bound(ps) if callable(bound) else bound, "covers": (covers or 0) + 1, "timeout": 1200,
+                        "optional": "anylen" in fn})
         return out
 
     g["splice"] = splice
